@@ -344,7 +344,7 @@ def admits (s : CBelt) : Option Bool :=
         else some (decide (s.cfg.p1 ≤ s.tob last) && !decide (s.travel ≤ s.tob first))
       else some false
     else some false
-  | _, _ => some (decide (s.putRes.length + s.level < s.cfg.cap))
+  | _, _ => some (decide (s.putRes.length + s.level < s.cfg.cap) && (s.cfg.acc || s.ready.isEmpty))
 
 def trigPut (s : CBelt) : CBelt :=
   match s.putQ with
@@ -385,6 +385,7 @@ def reserveGet (s : CBelt) (proc : Nat) : CBelt × Res :=
 
 /-- `handle_new_item_during_interruption` -/
 def handleNew (s : CBelt) (id : Nat) : CBelt :=
+  if s.noacc then s.interruptItem id else       -- a stopped non-accumulating belt: the item stops where it entered
   match s.pattern with
   | none => s.giveUp
   | some sl =>
